@@ -65,7 +65,7 @@ def compDiffs (iw mw : World) (io : ImplOutcome) (mo : Outcome) : List String :=
     ("R", canonReg iw.reg == canonReg mw.reg),
     ("K", ledgerEq iw.bank mw.bank),
     ("T", ledgerEq iw.cw20 mw.cw20),
-    ("N", ledgerEq iw.nft mw.nft),
+    ("N", nftLedgerEq iw.nft mw.nft),
     ("A", canonContracts iw.contracts == canonContracts mw.contracts),
     ("C", iw.nowNs == mw.nowNs && iw.height == mw.height),
     ("M", icodes == mcodes),
